@@ -227,6 +227,19 @@ def _criterion_wrapper(v, kind):
     return w
 
 
+def own_bounds(x0, bounds):
+    """the box the caller described, read by the harness itself (not by the package's validation): an (n, 2) array with infinities, a
+    list of (lower, upper) pairs with None for an absent side, or None"""
+    n = int(np.size(x0))
+    if bounds is None:
+        return np.full(n, -np.inf), np.full(n, np.inf)
+    lb, ub = np.empty(n), np.empty(n)
+    for i, (l, u) in enumerate(bounds):
+        lb[i] = -np.inf if l is None else float(l)
+        ub[i] = np.inf if u is None else float(u)
+    return lb, ub
+
+
 class Run:
     """one recorded execution of minimize_lbfgsb"""
 
@@ -355,6 +368,30 @@ class Run:
             _tls.rec = None
         return self
 
+    def nonfinite_points(self) -> bool:
+        """did the package hand the user's functions (or return) a point with NaN / infinite coordinates BEFORE any of the user's
+        functions returned a non-finite value? With a finite start this is the package's doing; after a non-finite value of the
+        objective or gradient (overflow, edge of the domain) it is the objective's, and outside every property."""
+        from harness.common import hexf, hexv
+        import math
+        for kd, k in self.rec.calls:
+            if kd not in ("F", "G") or k in ("-", ""):
+                continue
+            if not all(math.isfinite(t) for t in hexv(k)):
+                return True
+            v = (self.rec.F if kd == "F" else self.rec.G).get(k)
+            if v is None or v.startswith("!"):
+                continue
+            vals = [hexf(v)] if kd == "F" else hexv(v)
+            if not all(math.isfinite(t) for t in vals):
+                return False
+        for (_, _, _, g) in self.rec.FD:
+            if not all(math.isfinite(t) for t in hexv(g)):
+                return False
+        if self.result is not None and not np.isfinite(np.asarray(self.result.x, dtype=float)).all():
+            return True
+        return False
+
     def nonfinite(self) -> bool:
         """did the user's objective or gradient return a non-finite value (overflow, nan)?
         Such runs are outside the domain the properties quantify over."""
@@ -384,9 +421,8 @@ class Run:
         kw, rec = self.kwargs, self.rec
         if rec.ambiguous:
             return None
-        from lbfgsb.base import get_bounds
         x0 = np.asarray(kw["x0"], dtype=float)
-        lb, ub = get_bounds(x0, kw.get("bounds"))
+        lb, ub = own_bounds(x0, kw.get("bounds"))
         jac = kw.get("jac")
         L = ["reset", f"cfg.x0 {vhex(x0)}", f"cfg.lb {vhex(lb)}", f"cfg.ub {vhex(ub)}",
              f"cfg.mode {'callable' if callable(jac) else 'fd'}",
